@@ -93,6 +93,26 @@ static void client_loop(int port, int id, int nreq, uint64_t seed, bool tolerate
         st.ok++;
     }
 }
+// connection churn: short-lived connections opened and closed in a loop while others are served (accept/dispatch on the
+// acceptor thread races with teardown on the workers)
+static void churn_loop(int port, int id, int nconn, uint64_t seed, bool tolerateShutdown, ClientStats& st, const std::string& cfg) {
+    Rng r(seed);
+    for (int k = 0; k < nconn; k++) {
+        lv::Conn c; if (!c.open_to(port)) { if (!tolerateShutdown) viol("c09:connect-refused-under-load", "connect failed while the server is up", Json().str("config", cfg).done()); st.incomplete++; return; }
+        int nr = r.range(0, 2);
+        std::string buf; size_t off = 0;
+        for (int j = 0; j < nr; j++) {
+            std::string path = "/a/churn" + std::to_string(id) + "x" + std::to_string(k) + "x" + std::to_string(j);
+            if (!c.send_all("GET " + path + " HTTP/1.1\r\nHost: x\r\nConnection: keep-alive\r\nContent-Length: 0\r\n\r\n")) { st.incomplete++; return; }
+            lv::HttpMsg m = lv::read_response(c, buf, off, (int)(15000 * lv::load_factor()));
+            if (!m.complete) { if (!tolerateShutdown) viol("c09:no-response", "churn client " + std::to_string(id) + " got no response: " + m.error, Json().str("config", cfg).done()); st.incomplete++; return; }
+            off += m.consumed;
+            if (m.status != 200 || m.body != tag_of("GET", path, "")) { viol("c09:wrong-response:tag", "churn client " + std::to_string(id) + ": status " + std::to_string(m.status) + " body '" + m.body.substr(0, 60) + "'", Json().str("config", cfg).done()); st.bad++; return; }
+            st.ok++;
+        }
+        if (r.chance(1, 4)) c.rst_close(); else c.close_now();
+    }
+}
 static bool port_refuses(int port) { lv::Conn c; bool ok = c.open_to(port); return !ok; }
 
 static void run_config(long idx, int workers, int clients, int nreq, int shutdownMode, uint64_t seed) {
@@ -112,6 +132,9 @@ static void run_config(long idx, int workers, int clients, int nreq, int shutdow
     bool tolerate = shutdownMode >= 2 && shutdownMode != 4;
     std::vector<std::unique_ptr<lv::Conn>> idleConns;
     if (shutdownMode != 4) for (int k = 0; k < clients; k++) th.emplace_back([&, k] { client_loop(port, k, nreq, seed * 131 + (uint64_t)k, tolerate, stats[(size_t)k], cfg); });
+    int churners = shutdownMode == 4 ? 0 : 2;
+    std::vector<ClientStats> cstats((size_t)churners);
+    for (int k = 0; k < churners; k++) th.emplace_back([&, k] { churn_loop(port, 100 + k, nreq, seed * 977 + (uint64_t)k, tolerate, cstats[(size_t)k], cfg); });
     if (shutdownMode == 1) { for (int k = 0; k < 3; k++) { idleConns.emplace_back(new lv::Conn()); idleConns.back()->open_to(port); } }
     if (shutdownMode == 2 || shutdownMode == 3) { Rng r(seed); lv::msleep(r.range(5, 120)); }
     else for (auto& t : th) t.join();
